@@ -103,10 +103,12 @@ def order_checks(run, h):
     rng = np.random.RandomState(run.seed)
     fs = 100.0
     corners = {"none": [None, None], "low": [None, 12.0], "high": [1.5, None], "band": [1.5, 12.0]}
-    nrec = 2
+    nrec = 4
     base = []
     for r in range(nrec):
-        n = 380 + 17 * r
+        # 380, 397: a tail is discarded; 300 = 3 x 100 and 292 = 4 x 73 samples: the record ends exactly on a window
+        # boundary, so the final window is the one that is one sample short
+        n = (380, 397, 300, 292)[r]
         t = np.arange(n) / fs
         mk = lambda: np.cumsum(rng.normal(size=n)) * 0.3 + rng.normal(size=n) + 0.01 * np.arange(n)
         base.append(h.SeismicRecording3C(h.TimeSeries(mk(), 1 / fs), h.TimeSeries(mk(), 1 / fs), h.TimeSeries(mk(), 1 / fs),
@@ -146,7 +148,7 @@ def order_checks(run, h):
                                          filter_corner_frequencies_in_hz=corners[c["f"]],
                                          window_length_in_seconds=None if c["s"] == "none" else float(c["s"]),
                                          detrend=None if c["d"] == "none" else c["d"])
-        for recs in ([base[0]], base):
+        for recs in ([base[0]], base, [base[2]], [base[3]]):
             with warnings.catch_warnings():
                 warnings.simplefilter("ignore")
                 got = h.preprocess(copy.deepcopy(recs), st)
